@@ -153,6 +153,8 @@ def build_router(pt, cfg):
         if via == "decorator":
             kw = {oc: real_cc(pt, cc) for oc, cc in m["mc"].items()}
             r.method(**kw)(fn)
+        elif via == "decorator_kw":            # keywords exactly as the user wrote them, explicit NEVERs included
+            r.method(**{oc: real_cc(pt, cc) for oc, cc in m["kw"].items()})(fn)
         elif via == "default_decorator":       # documented default: MethodConfig(no_op=CallConfig.CALL)
             assert m["mc"] == {"no_op": "call"}
             r.method(fn)
@@ -459,7 +461,11 @@ def gen_cfg(rng, nmeth=None, nbare=None):
         via = rng.choice(["decorator", "add"])
         if mc == {"no_op": "call"} and rng.random() < 0.7:
             via = rng.choice(["default_decorator", "default_add"])
-        methods.append({"name": "m%d" % k, "hid": k, "shape": rng.choice(["v0", "v0", "v0", "r0", "a1", "a2r"]), "mc": mc, "via": via})
+        m = {"name": "m%d" % k, "hid": k, "shape": rng.choice(["v0", "v0", "v0", "r0", "a1", "a2r"]), "mc": mc, "via": via}
+        if via == "decorator" and rng.random() < 0.4:
+            m["via"] = "decorator_kw"
+            m["kw"] = dict(mc, **{oc: "never" for oc in OC5 if oc not in mc and rng.random() < 0.6})
+        methods.append(m)
     return {"bare": bare, "clear": rng.choice([None, "expr", "exprret", "sub", "abisub"]), "methods": methods}
 
 
@@ -498,6 +504,13 @@ def shrink_cfg_steps(cfg):
             if len(m["mc"]) > 1:
                 c = copy.deepcopy(cfg)
                 del c["methods"][i]["mc"][oc]
+                if "kw" in c["methods"][i]:
+                    c["methods"][i]["kw"].pop(oc, None)
+                yield c
+        for oc, cc in list(m.get("kw", {}).items()):
+            if cc == "never" and len(m["kw"]) > 1:
+                c = copy.deepcopy(cfg)
+                del c["methods"][i]["kw"][oc]
                 yield c
         if m["shape"] != "v0":
             c = copy.deepcopy(cfg)
